@@ -19,6 +19,13 @@ package c05
 //     bmdef global iomode:`. A value other than sync/async at one level counts as absent at that level;
 //   - literals: decimal, 0d, 0u (optionally `.0…`), 0x, 0b, and the sized forms 0x<n>, 0b<n>, 0u<n>, 0d<n>;
 //   - registers wrap at `%meta bmdef global registersize`;
+//   - `%section <name> .romdata` declares data (docinstructions.md "Declaring data"): every line is
+//     `<symbol> db <expression>[, <expression>]…`, every expression is one byte, the bytes of a section are laid
+//     out in the order written. `%meta cpdef <cp> romcode:<text>, romdata:<data>` gives the CP a ROM made of the
+//     instructions of <text> followed by the bytes of <data> (one ROM cell each). `mov rX, rom:<symbol>` loads the
+//     ROM address of the first byte of <symbol> in the data section of THAT CP, `mov rY, rom:[rX]` reads the ROM
+//     cell whose address is in rX. Only cells of the data part are read by generated programs (a cell of the code
+//     part holds an instruction word, whose encoding the source does not define);
 //   - `%meta ioatt <name> cp:<cp|bm>, index:<k>, type:<input|output>` pairs make streams:
 //     i2rw blocks until a value is available, r2owa appends to the stream (Kahn network: the
 //     value sequence on every stream does not depend on timing, so it is compared prefix-wise
@@ -45,6 +52,7 @@ type refItem struct {
 	Args   []string // operands
 	Line   int      // 1-based source line
 	Depth  int      // macro nesting depth that produced the item (0 = written in the section)
+	Macro  string   // innermost macro whose body holds the line ("" = written in the section)
 	LineIO string   // line-level iomode metadata ("" = none)
 }
 
@@ -52,6 +60,29 @@ type refSection struct {
 	Name   string
 	IOMode string
 	Items  []refItem
+}
+
+// refVar is one declared symbol of a data section; refData the section (Cells = its bytes in source order).
+type refVar struct {
+	Name  string
+	Off   int
+	Bytes []uint64
+	Line  int
+}
+
+type refData struct {
+	Name  string
+	Vars  []refVar
+	Cells []uint64
+}
+
+func (d *refData) lookup(name string) *refVar {
+	for i := range d.Vars {
+		if d.Vars[i].Name == name {
+			return &d.Vars[i]
+		}
+	}
+	return nil
 }
 
 type refMacro struct {
@@ -64,6 +95,7 @@ type refMacro struct {
 type refCP struct {
 	Name    string
 	RomCode string
+	RomData string
 }
 
 type refAtt struct {
@@ -74,14 +106,16 @@ type refAtt struct {
 }
 
 type refSource struct {
-	Sections map[string]*refSection
-	SecOrder []string
-	Macros   map[string]*refMacro
-	CPs      []refCP
-	Atts     []refAtt
-	Rsize    int
-	IOMode   string // global
-	Feat     map[string]bool
+	Sections  map[string]*refSection
+	SecOrder  []string
+	Datas     map[string]*refData
+	DataOrder []string
+	Macros    map[string]*refMacro
+	CPs       []refCP
+	Atts      []refAtt
+	Rsize     int
+	IOMode    string // global
+	Feat      map[string]bool
 	// label names for the label-leak class (see c05_test.go): labels written after the last line of a block,
 	// and labels written directly on a macro use or directly before the entry directive
 	Trailing map[string]bool
@@ -130,9 +164,10 @@ func isIdent(s string) bool {
 
 // parseSource reads the text.
 func parseSource(text string) (*refSource, error) {
-	rs := &refSource{Sections: map[string]*refSection{}, Macros: map[string]*refMacro{}, Feat: map[string]bool{}, Trailing: map[string]bool{}, Lost: map[string]bool{}}
+	rs := &refSource{Sections: map[string]*refSection{}, Datas: map[string]*refData{}, Macros: map[string]*refMacro{}, Feat: map[string]bool{}, Trailing: map[string]bool{}, Lost: map[string]bool{}}
 	var curSec *refSection
 	var curMac *refMacro
+	var curData *refData
 	var pending []refItem // labels waiting for the next line of the current block
 	pendingIO := ""       // line-level iomode metadata waiting for the next instruction line
 	flushTrailing := func() {
@@ -166,7 +201,7 @@ func parseSource(text string) (*refSource, error) {
 		f := strings.Fields(line)
 		switch f[0] {
 		case "%macro":
-			if curSec != nil || curMac != nil {
+			if curSec != nil || curMac != nil || curData != nil {
 				return nil, unsupported("line %d: %%macro inside a block", ln+1)
 			}
 			if len(f) != 3 || !isIdent(f[1]) {
@@ -188,17 +223,30 @@ func parseSource(text string) (*refSource, error) {
 			flushTrailing()
 			curMac = nil
 		case "%section":
-			if curSec != nil || curMac != nil {
+			if curSec != nil || curMac != nil || curData != nil {
 				return nil, unsupported("line %d: %%section inside a block", ln+1)
 			}
 			if len(f) < 3 || !isIdent(f[1]) {
 				return nil, unsupported("line %d: %%section header", ln+1)
 			}
-			if f[2] != ".romtext" {
+			if f[2] != ".romtext" && f[2] != ".romdata" {
 				return nil, unsupported("line %d: section type %s", ln+1, f[2])
 			}
-			if _, dup := rs.Sections[f[1]]; dup {
+			_, dupD := rs.Datas[f[1]]
+			if _, dup := rs.Sections[f[1]]; dup || dupD {
 				return nil, unsupported("line %d: section %s defined twice", ln+1, f[1])
+			}
+			if f[2] == ".romdata" {
+				if len(f) > 3 {
+					return nil, unsupported("line %d: metadata on a data section", ln+1)
+				}
+				if len(pending) > 0 {
+					return nil, unsupported("line %d: label before a data section", ln+1)
+				}
+				curData = &refData{Name: f[1]}
+				rs.Datas[f[1]] = curData
+				rs.DataOrder = append(rs.DataOrder, f[1])
+				continue
 			}
 			meta, err := parsePairs(strings.Join(f[3:], " "))
 			if err != nil {
@@ -216,6 +264,10 @@ func parseSource(text string) (*refSource, error) {
 			rs.Sections[f[1]] = curSec
 			rs.SecOrder = append(rs.SecOrder, f[1])
 		case "%endsection":
+			if curData != nil {
+				curData = nil
+				continue
+			}
 			if curSec == nil {
 				return nil, unsupported("line %d: %%endsection outside a section", ln+1)
 			}
@@ -258,6 +310,8 @@ func parseSource(text string) (*refSource, error) {
 					switch k {
 					case "romcode":
 						cp.RomCode = v
+					case "romdata":
+						cp.RomData = v
 					case "execmode":
 						if v != "ha" {
 							return nil, unsupported("line %d: execmode %s", ln+1, v)
@@ -300,6 +354,12 @@ func parseSource(text string) (*refSource, error) {
 		default:
 			if strings.HasPrefix(f[0], "%") {
 				return nil, unsupported("line %d: directive %s", ln+1, f[0])
+			}
+			if curData != nil {
+				if err := rs.dataLine(curData, line, ln+1); err != nil {
+					return nil, err
+				}
+				continue
 			}
 			if curSec == nil && curMac == nil {
 				return nil, unsupported("line %d: code outside a block", ln+1)
@@ -361,13 +421,58 @@ func parseSource(text string) (*refSource, error) {
 			pending = nil
 		}
 	}
-	if curSec != nil || curMac != nil {
+	if curSec != nil || curMac != nil || curData != nil {
 		return nil, unsupported("block not closed at end of file")
 	}
 	if rs.Rsize == 0 {
 		return nil, unsupported("no registersize")
 	}
 	return rs, nil
+}
+
+// dataLine reads `<symbol> db <expression>[, <expression>]…`. An expression is one byte
+// (docinstructions.md: "a constant expression that evaluates to a byte … the assembler assigns the first
+// expression to the first byte of the variable, the second expression to the second byte, and so on").
+// The reference gives a meaning to the notations that say how wide the number is and that are one byte wide:
+// 0x with one or two digits, 0b with up to eight digits, 0x<8>…, 0b<8>…. Any other number (plain decimal, 0d, 0u,
+// longer hex) is read by its value, if that is a byte, and flagged: see "db:number-without-byte-size" in evalCase.
+func (rs *refSource) dataLine(d *refData, line string, ln int) error {
+	f := strings.Fields(line)
+	if len(f) < 3 || !isIdent(f[0]) {
+		return unsupported("line %d: data line %q", ln, line)
+	}
+	if f[1] != "db" {
+		return unsupported("line %d: data directive %s", ln, f[1])
+	}
+	if d.lookup(f[0]) != nil {
+		return unsupported("line %d: data symbol %s defined twice", ln, f[0])
+	}
+	rest := strings.TrimLeft(strings.TrimPrefix(strings.TrimSpace(line), f[0]), " ")
+	rest = strings.TrimSpace(strings.TrimPrefix(rest, f[1]))
+	v := refVar{Name: f[0], Off: len(d.Cells), Line: ln}
+	for _, e := range strings.Split(rest, ",") {
+		e = strings.TrimSpace(e)
+		x, kind, ok := parseLiteral(e)
+		if !ok || x > 255 {
+			return unsupported("line %d: data expression %q", ln, e)
+		}
+		sizedByte := false
+		switch kind {
+		case "0x":
+			sizedByte = len(e) <= 4
+		case "0b":
+			sizedByte = len(e) <= 10
+		case "0x<n>", "0b<n>":
+			sizedByte = strings.Contains(e, "<8>")
+		}
+		if !sizedByte {
+			rs.Feat["db:number-without-byte-size"] = true
+		}
+		v.Bytes = append(v.Bytes, x)
+	}
+	d.Vars = append(d.Vars, v)
+	d.Cells = append(d.Cells, v.Bytes...)
+	return nil
 }
 
 // ---------------------------------------------------------------------------
@@ -500,6 +605,7 @@ type refIns struct {
 	Line   int
 	Depth  int
 	IOHow  string // for a pseudo-move to/from a port: which metadata levels were present
+	RomSym string // rset whose operand is rom:<symbol>: Imm is the ROM address of the symbol
 }
 
 type refProg struct {
@@ -511,6 +617,10 @@ type refProg struct {
 	Ins_, Outs_ map[int]bool // ports used (statically)
 	LabelFirst  bool         // a label sits before the first instruction
 	MultiLabel  bool         // some instruction carries several labels
+	Data        *refData     // the data part of the ROM (nil = none)
+	// OuterJumps: jumps written in a macro body whose label operand is defined by the section that uses the
+	// macro. Key = source line of the jump, value = the instruction index the label denotes in this section.
+	OuterJumps map[int]int
 }
 
 func parseReg(s string) (int, bool) {
@@ -559,6 +669,9 @@ func (rs *refSource) expand(items []refItem, depth int, maxDepth *int) ([]refIte
 				for _, s := range sub {
 					if s.Depth < depth+1 {
 						s.Depth = depth + 1
+					}
+					if s.Macro == "" {
+						s.Macro = m.Name
 					}
 					out = append(out, s)
 				}
@@ -683,10 +796,16 @@ func (rs *refSource) sectionFeatures(sec *refSection, feat map[string]bool) {
 	}
 }
 
-func (rs *refSource) compile(secName string, lenient bool) (*refProg, int, error) {
+func (rs *refSource) compile(secName, dataName string, lenient bool) (*refProg, int, error) {
 	sec, ok := rs.Sections[secName]
 	if !ok {
 		return nil, 0, unsupported("cp names an unknown section %s", secName)
+	}
+	var data *refData
+	if dataName != "" {
+		if data, ok = rs.Datas[dataName]; !ok {
+			return nil, 0, unsupported("cp names an unknown data section %s", dataName)
+		}
 	}
 	maxDepth := 0
 	items, err := rs.expand(sec.Items, 0, &maxDepth)
@@ -713,14 +832,42 @@ func (rs *refSource) compile(secName string, lenient bool) (*refProg, int, error
 		}
 		return "", how
 	}
-	p := &refProg{Section: secName, Labels: map[string]int{}, Entry: -1, Ins_: map[int]bool{}, Outs_: map[int]bool{}}
+	p := &refProg{Section: secName, Labels: map[string]int{}, Entry: -1, Ins_: map[int]bool{}, Outs_: map[int]bool{}, Data: data, OuterJumps: map[int]int{}}
 	entryName := ""
 	type pend struct {
-		idx  int
-		name string
-		line int
+		idx   int
+		name  string
+		line  int
+		depth int
 	}
 	var fix []pend
+	var romFix []int // instructions whose immediate is the ROM address of a data symbol
+	labelDepth := map[string]int{}
+	// romOperand: rom:<symbol> / rom:[rX]
+	romSymbol := func(a string) (string, bool) {
+		if strings.HasPrefix(a, "rom:") && isIdent(a[4:]) {
+			return a[4:], true
+		}
+		return "", false
+	}
+	romIndirect := func(a string) (int, bool) {
+		if strings.HasPrefix(a, "rom:[") && strings.HasSuffix(a, "]") {
+			return parseReg(a[5 : len(a)-1])
+		}
+		return 0, false
+	}
+	romAddr := func(in *refIns, it refItem, sym string) error {
+		in.Op, in.RomSym, in.Lit = "rset", sym, "rom-symbol"
+		switch {
+		case data != nil && data.lookup(sym) != nil:
+			romFix = append(romFix, len(p.Ins))
+		case lenient:
+			// a section no CP runs: the symbol has no address
+		default:
+			return unsupported("line %d: %s is not a symbol of the data section of the cp", it.Line, sym)
+		}
+		return nil
+	}
 	nlab := 0
 	for _, it := range items {
 		switch it.Kind {
@@ -730,6 +877,7 @@ func (rs *refSource) compile(secName string, lenient bool) (*refProg, int, error
 				return nil, maxDepth, unsupported("label %s defined twice in section %s", it.Name, secName)
 			}
 			p.Labels[it.Name] = len(p.Ins)
+			labelDepth[it.Name] = it.Depth
 			nlab++
 			if len(p.Ins) == 0 {
 				p.LabelFirst = true
@@ -786,6 +934,10 @@ func (rs *refSource) compile(secName string, lenient bool) (*refProg, int, error
 				if e = nargs(2); e == nil {
 					in.Op = "rset"
 					if in.Rd, e = reg(0); e == nil {
+						if sym, ok := romSymbol(a[1]); ok {
+							e = romAddr(&in, it, sym)
+							break
+						}
 						v, k, ok := parseLiteral(a[1])
 						if !ok {
 							e = unsupported("line %d: literal %q", it.Line, a[1])
@@ -799,7 +951,7 @@ func (rs *refSource) compile(secName string, lenient bool) (*refProg, int, error
 					if !isIdent(a[0]) {
 						e = unsupported("line %d: jump operand %q is not a label", it.Line, a[0])
 					}
-					fix = append(fix, pend{len(p.Ins), a[0], it.Line})
+					fix = append(fix, pend{len(p.Ins), a[0], it.Line, it.Depth})
 				}
 			case "jz":
 				if e = nargs(2); e == nil {
@@ -808,7 +960,7 @@ func (rs *refSource) compile(secName string, lenient bool) (*refProg, int, error
 						if !isIdent(a[1]) {
 							e = unsupported("line %d: jump operand %q is not a label", it.Line, a[1])
 						}
-						fix = append(fix, pend{len(p.Ins), a[1], it.Line})
+						fix = append(fix, pend{len(p.Ins), a[1], it.Line, it.Depth})
 					}
 				}
 			case "i2rw":
@@ -873,6 +1025,17 @@ func (rs *refSource) compile(secName string, lenient bool) (*refProg, int, error
 					p.Ins_[pt] = true
 					break
 				}
+				if sym, ok := romSymbol(a[1]); ok {
+					e = romAddr(&in, it, sym)
+					break
+				}
+				if r, ok := romIndirect(a[1]); ok {
+					in.Op, in.Rs = "romrd", r
+					if r+1 > p.NRegs {
+						p.NRegs = r + 1
+					}
+					break
+				}
 				if r, ok := parseReg(a[1]); ok {
 					in.Op, in.Rs = "cpy", r
 					if r+1 > p.NRegs {
@@ -904,6 +1067,15 @@ func (rs *refSource) compile(secName string, lenient bool) (*refProg, int, error
 			return nil, maxDepth, unsupported("line %d: jump to undefined label %s", f.line, f.name)
 		}
 		p.Ins[f.idx].Target = t
+		if f.depth > 0 && labelDepth[f.name] == 0 {
+			p.OuterJumps[f.line] = t
+		}
+	}
+	for _, i := range romFix {
+		p.Ins[i].Imm = uint64(len(p.Ins) + data.lookup(p.Ins[i].RomSym).Off)
+		if rs.Rsize < 64 && p.Ins[i].Imm>>uint(rs.Rsize) != 0 {
+			rs.Feat["rom-address-wider-than-register"] = true
+		}
 	}
 	if entryName == "" {
 		return nil, maxDepth, unsupported("section %s has no entry directive", secName)
@@ -959,18 +1131,18 @@ func (rs *refSource) network() (*refNet, error) {
 		if cp.RomCode == "" {
 			return nil, unsupported("cp %s without romcode", cp.Name)
 		}
-		p, ok := compiled[cp.RomCode]
+		p, ok := compiled[cp.RomCode+"\x00"+cp.RomData]
 		if !ok {
 			var err error
 			var d int
-			p, d, err = rs.compile(cp.RomCode, false)
+			p, d, err = rs.compile(cp.RomCode, cp.RomData, false)
 			if err != nil {
 				return nil, err
 			}
 			if d > n.MaxDepth {
 				n.MaxDepth = d
 			}
-			compiled[cp.RomCode] = p
+			compiled[cp.RomCode+"\x00"+cp.RomData] = p
 		}
 		n.Progs = append(n.Progs, p)
 		mk := func(used map[int]bool) []int {
@@ -1102,6 +1274,8 @@ type refStats struct {
 	MacroInstr          int             // executed instructions that came from a macro body
 	FellOff             bool
 	Overflow            bool // a literal does not fit the register
+	RomReads            int  // executed reads of a data cell
+	RomOutside          bool // a read of a ROM cell that is not a data cell (instruction word, or past the end)
 	Steps               int
 }
 
@@ -1177,6 +1351,15 @@ func (n *refNet) run(in [][]uint64, rounds, cap int, rendezvous bool) *refResult
 				st.Lits[in.Lit] = true
 			case "cpy":
 				c.regs[in.Rd] = c.regs[in.Rs]
+			case "romrd":
+				a := c.regs[in.Rs]
+				if p.Data == nil || a < uint64(len(p.Ins)) || a-uint64(len(p.Ins)) >= uint64(len(p.Data.Cells)) {
+					st.RomOutside = true
+					c.halted = true
+					continue
+				}
+				c.regs[in.Rd] = p.Data.Cells[a-uint64(len(p.Ins))] & mask
+				st.RomReads++
 			case "inc":
 				c.regs[in.Rd] = (c.regs[in.Rd] + 1) & mask
 			case "dec":
